@@ -33,6 +33,31 @@ LANGS = ("go", "python")
 GO_FLAGS = dict(sc.GO_FLAGS_FULL)
 
 
+def ucamel(s):
+    return s[:1].upper() + s[1:]
+
+
+def snake(s):
+    return re.sub(r"(?<=[a-z0-9])([A-Z])", r"_\1", s).lower()
+
+
+def pick_named(items, want, key=lambda x: x["name"]):
+    """The items called `want`: exactly, else in a generated spelling (UpperCamel method, snake_case function, lowerCamel
+    branch), else the unique one equal up to case and underscores. Names that differ only in letter case stay apart."""
+    hit = [x for x in items if key(x) == want]
+    if hit:
+        return hit
+    styled = {ucamel(want), snake(want), want[:1].lower() + want[1:]}
+    hit = [x for x in items if key(x) in styled]
+    if len(hit) == 1:
+        return hit
+    rev = [x for x in items if want in {ucamel(key(x)), snake(key(x)), key(x)[:1].lower() + key(x)[1:]}]
+    if len(rev) == 1:
+        return rev
+    hit = [x for x in items if norm_name(key(x)) == norm_name(want)]
+    return hit if len(hit) == 1 else []
+
+
 def norm_name(s):
     return s.replace("_", "").lower()
 
@@ -55,9 +80,9 @@ def load_index(ctx):
     return cat
 
 
-def emit_cases(ctx, ids, maxlen=3, langs=LANGS):
+def emit_cases(ctx, ids, maxlen=3, langs=LANGS, win=0, start=0):
     r = ctx.run_tlc("BuilderMC", "BuilderMC.cfg", workers=8, timeout=1500,
-                    constants={"Mode": '"cases"', "Ids": "{%s}" % ",".join(str(i) for i in ids), "MaxLen": maxlen,
+                    constants={"Mode": '"cases"', "Ids": "{%s}" % ",".join(str(i) for i in ids), "MaxLen": maxlen, "Win": win, "From": start,
                                "Langs": "{%s}" % ",".join('"%s"' % x for x in langs)})
     cases = collections.defaultdict(list)
     n = 0
@@ -130,6 +155,17 @@ def field_of(t, n):
     return None
 
 
+def is_const_field(S, f):
+    """python twin of BuilderMachine!IsConstF"""
+    if f["t"]["k"] == "const":
+        return True
+    return f["req"] and not f["null"] and f["t"]["k"] == "ref" and unwrap(S, f["t"])["k"] == "const"
+
+
+def const_val(S, f):
+    return sc.jv_to_py(unwrap(S, f["t"])["v"])
+
+
 def as_struct(S, key, t):
     while True:
         if t["k"] == "ref":
@@ -190,7 +226,7 @@ def built(S, D, key, t, v):
         acc = json.loads(json.dumps(D[key]))
         for mk, x in v.items():
             f = field_of(t, mk)
-            if f is None or f["t"]["k"] == "const":
+            if f is None or is_const_field(S, f):
                 continue
             acc[mk] = built(S, D, key + "." + mk, f["t"], x)
         return acc
@@ -278,8 +314,9 @@ class Machine:
         for a in asgs:
             key, t = type_at(self.S, self.rk, self.rt, a["path"])
             vt = t if a["m"] == "direct" else unwrap(self.S, t)["t"]
-            b = built(self.S, self.D, key, vt, c["as"][a["src"] - 1])
-            viol = validate_errs(self.S, vt, c["as"][a["src"] - 1] if self.lang == "python" else b)
+            given = sc.jv_to_py(a["c"]) if a["src"] == 0 else c["as"][a["src"] - 1]
+            b = built(self.S, self.D, key, vt, given)
+            viol = validate_errs(self.S, vt, given if self.lang == "python" else b)
             bad = bool(viol)
             info["paths"].append(tuple(a["path"]))
             info["m"] = a["m"]
@@ -336,8 +373,8 @@ def consts_ok(S, t, v):
     if k == "struct" and isinstance(v, dict):
         for f in t["fields"]:
             x = v.get(f["n"], ABSENT)
-            if f["t"]["k"] == "const":
-                c = sc.jv_to_py(f["t"]["v"])
+            if is_const_field(S, f):
+                c = const_val(S, f)
                 if x is ABSENT or type(x) is not type(c) or x != c:
                     return False
             elif x is not ABSENT and x is not None and not consts_ok(S, f["t"], x):
@@ -376,8 +413,8 @@ def first_missing_const(S, t, v, path=()):
     if k == "struct" and isinstance(v, dict):
         for f in t["fields"]:
             x = v.get(f["n"], ABSENT)
-            if f["t"]["k"] == "const":
-                c = sc.jv_to_py(f["t"]["v"])
+            if is_const_field(S, f):
+                c = const_val(S, f)
                 if x is ABSENT or type(x) is not type(c) or x != c:
                     return path + (f["n"],)
             elif x is not ABSENT and x is not None:
@@ -402,6 +439,13 @@ def veneer_yaml(entry, pkg):
             builders.append("  - promote_options_to_constructor:\n      by_object: %s\n      options: [%s]\n" % (r["obj"], ", ".join(r["fields"])))
         elif r["k"] == "unfold":
             options.append("  - struct_fields_as_options:\n      by_name: %s.%s\n      fields: [%s]\n" % (r["obj"], r["field"], ", ".join(r["fields"])))
+        elif r["k"] == "side":
+            options.append("  - add_assignment:\n      by_name: %s.%s\n      assignment:\n        path: %s\n        method: direct\n        value: { constant: %s }\n"
+                           % (r["obj"], r["field"], ".".join(r["fields"][1:]), r["fields"][0]))
+        elif r["k"] == "merge":
+            builders.append("  - merge_into:\n      destination: %s\n      source: %s\n      under_path: %s\n" % (r["obj"], r["field"], ".".join(r["fields"])))
+        elif r["k"] == "init":
+            builders.append("  - initialize:\n      by_name: %s\n      set:\n        - {property: %s, value: %s}\n" % (r["obj"], ".".join(r["fields"][1:]), r["fields"][0]))
         elif r["k"] == "dup":
             options.append("  - duplicate:\n      by_name: %s.%s\n      as: %s\n" % (r["obj"], r["field"], r["fields"][0]))
         elif r["k"] == "renarg":
@@ -446,11 +490,28 @@ def veneer_yaml(entry, pkg):
     return y
 
 
-def pipeline_yaml(fmt, path, package, veneers_dir, converters, python):
+def companion_schema(schema):
+    """A second package for the same run: every struct of the entry (but the root) is defined AGAIN under the same bare name
+    with a different definition, and a root of its own refers to them. It is never driven; it is there so that whatever
+    cog keys by a bare name meets two different definitions, with the other package sorting before and after."""
+    def fld(n, t):
+        return {"n": n, "t": t, "req": True, "null": False, "def": {"j": "none"}}
+    names = [d["name"] for d in schema["defs"] if d["t"]["k"] == "struct" and d["name"] != schema["root"]]
+    defs = [{"name": n, "t": {"k": "struct", "fields": [fld("t", {"k": "str", "mn": 1, "mx": -1}), fld("flag", {"k": "bool"})]}} for n in names]
+    root = {"name": schema["root"], "t": {"k": "struct", "fields": [fld("x" + n.lower(), {"k": "ref", "name": n}) for n in names]
+                                          + [fld("w", {"k": "str", "mn": -1, "mx": -1})]}}
+    return {"defs": [root] + defs, "root": schema["root"]}
+
+
+def _input_yaml(fmt, path, package):
     if fmt == "cue":
-        inp = "  - cue:\n      entrypoint: '%s'\n      package: %s\n" % (path, package)
-    else:
-        inp = "  - %s:\n      path: '%s'\n      package: %s\n" % (fmt, path, package)
+        return "  - cue:\n      entrypoint: '%s'\n      package: %s\n" % (path, package)
+    return "  - %s:\n      path: '%s'\n      package: %s\n" % (fmt, path, package)
+
+
+def pipeline_yaml(fmt, path, package, veneers_dir, converters, python, before=(), after=()):
+    inp = "".join(_input_yaml(fmt, p_, k_) for p_, k_ in before) + _input_yaml(fmt, path, package) + \
+        "".join(_input_yaml(fmt, p_, k_) for p_, k_ in after)
     y = "debug: false\ninputs:\n" + inp
     if veneers_dir:
         y += "transformations:\n  builders: ['%s']\n" % veneers_dir
@@ -517,8 +578,23 @@ def generate(ctx, batch, formats=FORMATS):
                 os.makedirs(vdir)
                 open(os.path.join(vdir, "v.yaml"), "w").write(veneer_yaml(entry, pkg))
                 u["veneers"] = veneer_yaml(entry, pkg)
+            # two companion packages (same bare names, other definitions), one sorting before and one after the entry's package
+            comp = {}
+            for pre in ("a", "z"):
+                cpkg = pre + pkg[1:]
+                ctext = sc.render(companion_schema(entry["schema"]), fmt, cpkg)
+                if fmt == "cue":
+                    cd = os.path.join(inputs, cpkg)
+                    os.makedirs(cd)
+                    open(os.path.join(cd, cpkg + ".cue"), "w").write(ctext)
+                    comp[pre] = (cd, cpkg)
+                else:
+                    cp_ = os.path.join(inputs, cpkg + ".json")
+                    open(cp_, "w").write(ctext)
+                    comp[pre] = (cp_, cpkg)
+            u["companions"] = [comp["a"][1], comp["z"][1]]
             yp = os.path.join(inputs, pkg + ".yaml")
-            open(yp, "w").write(pipeline_yaml(fmt, path, pkg, vdir, batch.converters, batch.python))
+            open(yp, "w").write(pipeline_yaml(fmt, path, pkg, vdir, batch.converters, batch.python, before=[comp["a"]], after=[comp["z"]]))
             jobs.append({"id": pkg, "yaml": yp, "root": gen, "ir": irdir})
     nsh = min(sc.NSHARDS, max(1, len(jobs)))
     shards = [jobs[i::nsh] for i in range(nsh)]
@@ -550,7 +626,8 @@ def generate(ctx, batch, formats=FORMATS):
                 u["status"] = "generated"
                 u["files"] = r["files"]
                 for lang in r.get("languages", []):
-                    u["ir"][lang] = json.load(open(os.path.join(irdir, "%s.%s.json" % (u["pkg"], lang))))["builders"]
+                    allb = json.load(open(os.path.join(irdir, "%s.%s.json" % (u["pkg"], lang))))["builders"]
+                    u["ir"][lang] = [b_ for b_ in allb if b_["pkg"] == u["pkg"]]      # the companions' builders are not driven
     batch.timing["generate_s"] = round(time.time() - t0, 2)
     return batch
 
@@ -693,18 +770,27 @@ from python.cog.encoder import JSONEncoder
 def norm(s):
     return s.replace("_", "").lower()
 
+FIRST_FRESH = {}
 _mods = {}
 def mod(pkg):
     if pkg not in _mods:
         _mods[pkg] = importlib.import_module("python.builders." + pkg)
     return _mods[pkg]
 
+def snake(s):
+    import re
+    return re.sub(r"(?<=[a-z0-9])([A-Z])", r"_\1", s).lower()
+
 def find(obj, name):
+    # exact, then the generated spelling (snake_case), then the unique attribute equal up to case and underscores
+    for cand in (name, snake(name)):
+        if not cand.startswith("_") and hasattr(obj, cand):
+            return getattr(obj, cand)
     n = norm(name)
-    for a in dir(obj):
-        if not a.startswith("_") and norm(a) == n:
-            return getattr(obj, a)
-    raise LookupError("no attribute like %s on %r" % (name, obj))
+    hits = [a for a in dir(obj) if not a.startswith("_") and norm(a) == n]
+    if len(hits) == 1:
+        return getattr(obj, hits[0])
+    raise LookupError("no unique attribute like %s on %r (%s)" % (name, obj, hits))
 
 def mk_arg(pkg, a):
     k = a["k"]
@@ -729,7 +815,8 @@ for line in sys.stdin:
     if not line.strip():
         continue
     c = json.loads(line)
-    r = {"id": c["id"], "raised": [], "kinds": [], "enc": None, "has_enc": False, "enc_err": None, "harness_err": None, "aborted": False}
+    r = {"id": c["id"], "raised": [], "kinds": [], "enc": None, "has_enc": False, "enc_err": None, "harness_err": None, "aborted": False,
+         "build2_same": None, "again_same": None, "again_diff": None, "fresh_same": True}
     try:
         cls = find(mod(c["pkg"]), c["type"])
     except Exception as e:
@@ -738,6 +825,22 @@ for line in sys.stdin:
     b = None
     try:
         b = cls(*[mk_arg(c["pkg"], x) for x in c["new"]])
+        # the freshly constructed object must not depend on what happened before in this process
+        fkey = c["pkg"] + "." + c["type"] + json.dumps(c["new"], sort_keys=True)
+        try:
+            fresh = json.dumps(b.build(), cls=JSONEncoder, sort_keys=True)
+            if fkey in FIRST_FRESH:
+                r["fresh_same"] = FIRST_FRESH[fkey] == fresh
+            else:
+                FIRST_FRESH[fkey] = fresh
+        except Exception:
+            pass
+        if c.get("type_default") and not c["new"]:
+            try:
+                models = importlib.import_module("python.models." + c["pkg"])
+                r["type_default"] = json.loads(json.dumps(find(models, c["object"])(), cls=JSONEncoder))
+            except Exception:
+                pass
         if c.get("ctor_in_seq"):
             r["raised"].append(None); r["kinds"].append(None)
     except LookupError as e:
@@ -757,6 +860,10 @@ for line in sys.stdin:
             args = [mk_arg(c["pkg"], x) for x in call["args"]]
             opt(*args)
             r["raised"].append(None); r["kinds"].append(None)
+            try:
+                b.build()      # build() between the calls must not change what follows
+            except Exception:
+                pass
         except LookupError as e:
             r["harness_err"] = "%s: %s" % (type(e).__name__, e); bad = True; break
         except Exception as e:
@@ -764,8 +871,21 @@ for line in sys.stdin:
     if not bad:
         try:
             obj = b.build()
-            r["enc"] = json.loads(json.dumps(obj, cls=JSONEncoder))
+            first = json.dumps(obj, cls=JSONEncoder, sort_keys=True)
+            r["enc"] = json.loads(first)
             r["has_enc"] = True
+            r["build2_same"] = json.dumps(b.build(), cls=JSONEncoder, sort_keys=True) == first
+            # the same plan on a second fresh builder (calls that raised the first time raise again and are skipped again)
+            if not any(r["raised"]):
+                try:
+                    b2 = mk_builder(c["pkg"], {"type": c["type"], "new": c["new"], "calls": c["calls"]})
+                    second = json.dumps(b2.build(), cls=JSONEncoder, sort_keys=True)
+                    r["again_same"] = second == first
+                    if second != first:
+                        r["again_diff"] = second
+                except Exception as e:
+                    r["again_same"] = False
+                    r["again_diff"] = "%s: %s" % (type(e).__name__, e)
         except Exception as e:
             r["enc_err"] = "%s: %s" % (type(e).__name__, e)
     print(json.dumps(r))
@@ -847,7 +967,13 @@ def bind(entry, u, lang):
         sb = entry["B"][key]
         opts = []
         for so in sb["opts"]:
-            hit = [o for o in irb["options"] if norm_name(o["name"]) == norm_name(so["name"])]
+            hit = pick_named(irb["options"], so["name"])
+            if not hit:
+                # the generated builder has no such option (where the requirement leaves that open - an optional reference to a
+                # constant - this is not a verdict): its calls are skipped and listed, everything else of the builder is judged
+                opts.append(None)
+                u.setdefault("derived_options_missing", []).append("%s %s.%s" % (lang, key, so["name"]))
+                continue
             if len(hit) != 1:
                 raise BindError("%s builder %s: %d options named %s" % (lang, key, len(hit), so["name"]))
             io = dict(hit[0])
@@ -863,6 +989,8 @@ def bind(entry, u, lang):
             names = [a["name"] for a in io["args"]]
             argpos = {}
             for n_, sa in enumerate(so["asgs"]):
+                if sa["src"] == 0:
+                    continue        # a constant riding on the option: no argument
                 same = [a for a in io["asgs"] if a["path"] == sa["path"]]
                 ia = same[0] if same else io["asgs"][n_]
                 if ia["arg"] not in names or (sa["key"] and ia["key"] not in names):
@@ -883,12 +1011,10 @@ def bind(entry, u, lang):
             g = u["glue"].get(norm_name(irb["name"]))
             if g is None:
                 raise BindError("no generated Go builder for %s" % irb["name"])
-            names = {norm_name(m["name"]): m["name"] for m in g["options"]}
-            for io in opts:
-                if norm_name(io["name"]) not in names:
+            for io in [x for x in opts if x is not None]:
+                if not pick_named(g["options"], io["name"]):
                     raise BindError("generated Go builder %s has no method for option %s" % (g["name"], io["name"]))
             out[key]["go"] = g
-            out[key]["go_names"] = names
     return out
 
 
@@ -922,7 +1048,7 @@ class Planner:
     def opt_name(self, irb, io):
         if self.lang == "go":
             g = self.u["glue"][norm_name(irb["name"])]
-            return {norm_name(m["name"]): m["name"] for m in g["options"]}[norm_name(io["name"])]
+            return pick_named(g["options"], io["name"])[0]["name"]
         return io["name"]
 
     def type_name(self, irb):
@@ -1014,7 +1140,7 @@ class Planner:
         def calls_for(prefix, st, skey, val):
             for mk, x in val.items():
                 f = field_of(st, mk)
-                if f is None or f["t"]["k"] == "const" or (not prefix and mk in promoted):
+                if f is None or is_const_field(self.S, f) or (not prefix and mk in promoted):
                     continue
                 path = prefix + [mk]
                 names = [o["name"] for o in (sb["opts"] if sb else []) if len(o["asgs"]) == 1 and o["asgs"][0]["path"] == path and o["asgs"][0]["m"] == "direct"]
@@ -1022,7 +1148,7 @@ class Planner:
                     names = [mk]
                 if len(names) > 1:
                     self.has_choice = True       # the option and its duplicate(s)
-                hit = [o for o in irb["options"] if names and norm_name(o["name"]) == norm_name(names[self.variant % len(names)])]
+                hit = pick_named(irb["options"], names[self.variant % len(names)]) if names else []
                 if len(hit) == 1 and len(hit[0]["args"]) == 1:
                     calls.append({"opt": self.opt_name(irb, hit[0]), "args": [self.arg(hit[0]["args"][0]["shape"], skey + "." + mk, f["t"], x)]})
                     continue
@@ -1057,8 +1183,12 @@ class Planner:
                 new.append(self.arg(arg["shape"], fk, ft, val))
         for c in seq:
             so, io = sb["opts"][c["o"] - 1], b["opts"][c["o"] - 1]
+            if io is None:
+                raise BindError("the generated builder has no option %s" % so["name"])
             args = [None] * len(io["args"])
             for a in so["asgs"]:
+                if a["src"] == 0:
+                    continue
                 fk, ft = type_at(self.S, root_key, self.S[root_key], a["path"])
                 vt = ft if a["m"] == "direct" else unwrap(self.S, ft)["t"]
                 args[io["argpos"][a["src"]]] = self.arg(io["args"][io["argpos"][a["src"]]]["shape"], fk, vt, c["as"][a["src"] - 1])
@@ -1078,6 +1208,8 @@ def default_commands(entry, u, lang, bound):
         vals = [sc.jv_to_py(x) for x in sb["ctor0"]]    # valid arguments (Semantics!Base of each promoted option's type)
         c = pl.root_command(key, [], ctor_vals=vals)
         c["ctor_in_seq"] = False
+        c["object"] = bound[key]["ir"]["object"]
+        c["type_default"] = True
         cmds[key] = c
         for alt in bound[key].get("alts", []):
             if any(a["arg"] for a in alt["ctor"]["asgs"]):
@@ -1089,6 +1221,21 @@ def default_commands(entry, u, lang, bound):
 # ----------------------------------------------------------------------------------------------
 # the common batch for C09 / C14
 # ----------------------------------------------------------------------------------------------
+def usable(u, lang):
+    """A unit whose Go package does not compile is still driven in Python (the Python output does not depend on it)."""
+    return u["status"] == "ok" or (lang == "python" and u["status"] == "not_executable")
+
+
+def soft_inconclusive(ctx, msg):
+    """A gate of the check itself (vacuity, self-test, harness trouble on SOME cases) must not turn observed violations into
+    exit 2: with a not-yet-listed violation on record the run ends as a violation and the gate's message is kept as a note."""
+    known = {k["signature"] for k in core.load_known() if k["property"] == ctx.pid and k.get("status", "known") == "known" and "signature" in k}
+    if any(f["signature"] not in known for f in ctx.failures):
+        ctx.notes.append("would have been inconclusive without the violations above: " + msg)
+        return
+    raise core.Inconclusive(msg)
+
+
 def run_bbatch(ctx, ids=None, formats=FORMATS, converters=False, python=True, c09_only=False):
     if ctx.worker is None:
         ctx.build_worker()
@@ -1100,9 +1247,9 @@ def run_bbatch(ctx, ids=None, formats=FORMATS, converters=False, python=True, c0
     build(ctx, b)
     langs = LANGS if python else ("go",)
     for u in b.units.values():
-        if u["status"] != "ok":
-            continue
         for lang in langs:
+            if not usable(u, lang):
+                continue
             try:
                 u["bind"][lang] = bind(b.cat[u["id"]], u, lang)
             except BindError as e:
@@ -1119,11 +1266,9 @@ def real_defaults(ctx, batch, langs=LANGS):
     """{(pkg, lang): {key: default object}} from freshly constructed builders of the real generated code."""
     go_cmds, py_cmds, index = [], [], []
     for u in batch.units.values():
-        if u["status"] != "ok":
-            continue
         entry = batch.cat[u["id"]]
         for lang in langs:
-            bound = u["bind"].get(lang)
+            bound = u["bind"].get(lang) if usable(u, lang) else None
             if not bound:
                 continue
             try:
@@ -1141,17 +1286,27 @@ def real_defaults(ctx, batch, langs=LANGS):
     pres = run_python(ctx, batch, py_cmds, "defaults") if py_cmds else {}
     out = collections.defaultdict(dict)
     problems = []
+    batch.type_defaults = collections.defaultdict(dict)     # (pkg, lang) -> key -> the TYPE's own default object (New<T>() / models.T())
+    batch.construction_failures = []                        # (pkg, lang, key, what): the generated constructor itself crashed
     for pkg, lang, key, cid in index:
         if lang == "go":
             r = gres[cid]
+            if r.get("panic") and not r.get("glue_err"):
+                batch.construction_failures.append((pkg, lang, key, "panic: " + r["panic"]))
             if r.get("glue_err") or r.get("panic") or not r.get("peek"):
                 problems.append((cid, r.get("glue_err") or r.get("panic")))
                 continue
             out[(pkg, lang)][key] = r["peek"]
+            if r.get("type_default") is not None:
+                batch.type_defaults[(pkg, lang)][key] = r["type_default"]
         else:
             r = pres[cid]
+            if not r.get("harness_err") and any(r["raised"]):
+                batch.construction_failures.append((pkg, lang, key, str([x for x in r["raised"] if x][0])))
             if r.get("harness_err") or not r.get("has_enc") or any(r["raised"]):
                 problems.append((cid, r.get("harness_err") or r.get("enc_err") or r["raised"]))
                 continue
             out[(pkg, lang)][key] = r["enc"]
+            if r.get("type_default") is not None:
+                batch.type_defaults[(pkg, lang)][key] = r["type_default"]
     return out, problems
